@@ -107,6 +107,9 @@ def work_programs(rnd, n):
     for _ in range(n):
         leaf = lambda: f"{rnd.choice([3, 40, 700, 9000, 20000])}d{rnd.choice([2, 4, 8, 16, 256])}"
         lines = [f"&va = {leaf()}", rnd.choice([f"&vb = va + {leaf()}", "&vb = va + va", f"&vb = {leaf()}"])]
+        # computed values that do their work and then evaluate to null / a string / an empty array (the lookup of a name that
+        # yields null goes on to the next scope: the work already done must stay charged)
+        lines.append(rnd.choice([f"&vn = [{leaf()}, nosuchname][1]", f"&vn = [{leaf()}, null][1]", f"&vn = [{leaf()}, 'a'][1]", f"&vn = {{'k': {leaf()}}}.nokey"]))
         funcs = []
         for j in range(rnd.randrange(1, 4)):
             terms = []
@@ -131,6 +134,8 @@ def work_programs(rnd, n):
                 body = f"{pre}i = 0; s = 0; while i < {rnd.choice([2, 3, 6])} {{ s = s + {body}; i = i + 1 }}; s"
             else:
                 body = pre + body
+            if rnd.random() < 0.4:
+                body = rnd.choice(["vn; ", "x9 = vn; ", "vn; vn; "]) + body
             lines.append(f"func g{j}() {{ {body} }}")
             funcs.append(f"g{j}")
         items = [rnd.choice([x + "()" for x in funcs] + ["va", "vb"]) for _ in range(rnd.randrange(1, 5))]
@@ -212,6 +217,12 @@ def run(res, tier, seed):
         cases.append({"b64": base64.b64encode(use.encode()).decode(), "oplimit": 30000, "parselimit": 0, "mode": 0,
                       "lazypre": base64.b64encode(pre.encode()).decode()})
         meta.append((pre + "  ||restored, then||  " + use, "nested-work-lazy", "budget", 30000, 0, 0))
+    # work done by a computed value of an OUTER scope that evaluates to null, read by bare name inside a function, repeated
+    for cdef in ("&c0 = [5000d2, nosuchname][1]", "&c0 = [5000d2, null][1]", "&c0 = {'k': 5000d2}.nokey"):
+        for use in ("func f0() { c0; 1 }; i = 0; while i < 20 { f0(); i = i + 1 }; 7", "func f0() { x = c0; 1 }; func f1() { f0() + f0() }; i = 0; while i < 10 { f1(); i = i + 1 }; 7",
+                    "func f0() { `{c0}`; 1 }; i = 0; while i < 20 { f0(); i = i + 1 }; 7"):
+            cases.append({"b64": base64.b64encode((cdef + "; " + use).encode()).decode(), "oplimit": 30000, "parselimit": 0, "mode": 0})
+            meta.append((cdef + "; " + use, "nested-work-null-computed", "budget", 30000, 0, 0))
     rows, fatal = run_cases(cases, timeout=60 if tier == "quick" else 240)
     found = 0
     kinds = {}
